@@ -39,7 +39,7 @@ def c06(replay_case=None):
         from . import real
 
         real.init_worker()
-        job = {"table": {o: (v["prio"], v["assoc"]) for o, v in replay_case["ops"].items()}, "order": replay_case["order"], "origin": "replay",
+        job = {"table": {o: (v["prio"], v["assoc"]) for o, v in replay_case["ops"].items()}, "order": replay_case["order"], "origin": "replay", "rulelevel": replay_case.get("rulelevel", False),
                "nexpr": 26, "maxtok": 9}
         cases, st = stage_prec.judge(stage_prec.worker(job), tag_="precreplay")
     else:
@@ -48,8 +48,8 @@ def c06(replay_case=None):
     out.cov["states"], out.cov["transitions"] = st["states"], st["generated"]
     for c in cases:
         order = [a.split('"')[1] if '"' in a and a.strip().startswith("E ") else ("paren" if "(" in a else "n")
-                 for a in c["gtext"].strip()[3:-1].split(" | ")]
-        rep = {"kind": "prec-case", "name": c["name"], "gtext": c["gtext"], "ops": c["ops"], "order": order}
+                 for a in c["gtext"].strip().split(": ", 1)[1][:-1].split(" | ")]
+        rep = {"kind": "prec-case", "name": c["name"], "gtext": c["gtext"], "ops": c["ops"], "order": order, "rulelevel": c["gtext"].startswith("E {")}
         for cl in c["case_clauses"]:
             out.fail(cl, c["name"], dict(rep, build_err=c["build_err"]), origin=c["origin"])
         for e in c["exprs"]:
